@@ -1,4 +1,262 @@
-/- C04 — property theorems (under construction). -/
+/-
+  C04 — a result is the union of exactly the selected, available backends.
+
+  `selectBackends` mirrors ExpandRequestedBackends + prepareResponse, `backendAvailable` mirrors
+  Peer.GetDataStore, `dataQuery` builds the response from the per-backend `gatherRows`.
+  Property theorems only; helper lemmas live in Lmd/Lemmas/Auth.lean.
+-/
 import Lmd.Props.C01
+import Lmd.Lemmas.Auth
+
 namespace Lmd.C04
+
+/-! ## The specification -/
+
+/-- the request selects backend `b`: no `Backends:` header, or the header names its id -/
+def selected (req : Request) (b : Backend) : Bool := req.backends.isEmpty || req.backends.contains b.id
+
+/-- tables answered per backend (`tables` / `columns` are answered once, from the first backend) -/
+def Ordinary (t : Table) : Prop := t.name ≠ "tables" ∧ t.name ≠ "columns"
+
+/-- the error entry for a requested id that names no backend -/
+def unknownEntry (id : String) : String × String := (id, s!"bad request: backend {id} does not exist")
+
+/-- the error entry for a selected backend whose data is not available -/
+def downEntry (b : Backend) : String × String := (b.id, s!"peer is down: {b.err}")
+
+/-! ## 5. which backends are asked -/
+
+/-- The selected peers are the configured backends filtered by the `Backends:` header: configuration
+    order is kept and the order and multiplicity of the ids in the header play no role. -/
+theorem peers_eq_filter (ds : Dataset) (t : Table) (req : Request) (ht : Ordinary t) :
+    (selectBackends ds t req).peers = ds.backends.filter (selected req) := by
+  obtain ⟨h1, h2⟩ := ht
+  have hc : (t.name == "tables" || t.name == "columns") = false := by simp [h1, h2]
+  simp only [selectBackends, hc, Bool.false_eq_true, if_false]
+  apply List.filter_congr
+  intro b hb
+  unfold selected
+  cases hbs : req.backends with
+  | nil => simpa using ⟨b, hb, rfl⟩
+  | cons x xs =>
+    simp only [List.isEmpty_cons, Bool.false_eq_true, if_false, Bool.false_or]
+    have hk : (ds.backends.any fun x => x.id == b.id) = true := by simpa using ⟨b, hb, rfl⟩
+    cases hc : (x :: xs).contains b.id
+    · simp only [List.contains_eq_mem, decide_eq_false_iff_not] at hc
+      simp [List.mem_filter, hc]
+    · simp only [List.contains_eq_mem, decide_eq_true_eq] at hc
+      simpa [List.mem_filter, hc] using hk
+
+/-- A backend is asked iff it is configured and (there is no `Backends:` header or the header lists
+    its id). -/
+theorem selected_exact (ds : Dataset) (t : Table) (req : Request) (ht : Ordinary t) (b : Backend) :
+    b ∈ (selectBackends ds t req).peers ↔ b ∈ ds.backends ∧ (req.backends = [] ∨ b.id ∈ req.backends) := by
+  rw [peers_eq_filter ds t req ht]
+  simp [selected, List.mem_filter]
+
+/-- For every table the selected peers are a sub-list of the configured backends: configuration
+    order is kept and no backend occurs more often than it is configured. -/
+theorem peers_sublist (ds : Dataset) (t : Table) (req : Request) :
+    (selectBackends ds t req).peers.Sublist ds.backends := by
+  unfold selectBackends
+  simp only
+  split
+  · exact List.take_sublist _ _
+  · exact List.filter_sublist
+
+/-- with distinct configured backends no peer is asked twice -/
+theorem peers_nodup (ds : Dataset) (t : Table) (req : Request) (hn : ds.backends.Nodup) :
+    (selectBackends ds t req).peers.Nodup := (peers_sublist ds t req).nodup hn
+
+/-- with distinct configured ids no id is asked twice -/
+theorem peer_ids_nodup (ds : Dataset) (t : Table) (req : Request) (hn : (ds.backends.map (·.id)).Nodup) :
+    ((selectBackends ds t req).peers.map (·.id)).Nodup := ((peers_sublist ds t req).map _).nodup hn
+
+/-- Two `Backends:` headers that name the same set of ids - in whatever order and however often -
+    select the same peers. -/
+theorem dup_header (ds : Dataset) (t : Table) (req req' : Request)
+    (hs : ∀ id, id ∈ req.backends ↔ id ∈ req'.backends) :
+    (selectBackends ds t req).peers = (selectBackends ds t req').peers := by
+  have he : req.backends.isEmpty = req'.backends.isEmpty := by
+    cases h1 : req.backends <;> cases h2 : req'.backends <;> simp_all
+    · rename_i a _; exact absurd (hs a) (by simp)
+    · rename_i a _; exact absurd (hs a) (by simp)
+  have hf : ∀ k : String → Bool, ∀ x, (req.backends.filter k).contains x = (req'.backends.filter k).contains x := by
+    intro k x
+    rw [Bool.eq_iff_iff]
+    simp [List.mem_filter, hs]
+  unfold selectBackends
+  simp only [he]
+  split
+  · rfl
+  · congr 1
+    funext b
+    cases req'.backends.isEmpty
+    · simp only [Bool.false_eq_true, if_false, hf]
+    · rfl
+
+/-- in particular, repeating an id in the header does not repeat the peer -/
+theorem dup_header_cons (ds : Dataset) (t : Table) (req : Request) (id : String) (rest : List String) :
+    (selectBackends ds t { req with backends := id :: id :: rest }).peers =
+      (selectBackends ds t { req with backends := id :: rest }).peers :=
+  dup_header ds t _ _ (by simp)
+
+/-! ## 6. which backends are reported as failed -/
+
+/-- The `failed` list of the selection holds exactly the requested ids that name no configured
+    backend, each exactly once, each with the message "bad request: backend <id> does not exist". -/
+theorem failed_exact (ds : Dataset) (t : Table) (req : Request) :
+    (∀ p : String × String, p ∈ (selectBackends ds t req).failed ↔
+        p.1 ∈ req.backends ∧ (∀ b ∈ ds.backends, b.id ≠ p.1) ∧ p = unknownEntry p.1) ∧
+    ((selectBackends ds t req).failed.map (·.1)).Nodup := by
+  have hf : (selectBackends ds t req).failed =
+      ((req.backends.filter (fun id => !ds.backends.any (·.id == id))).eraseDups).map unknownEntry := rfl
+  constructor
+  · intro p
+    rw [hf]
+    simp only [List.mem_map, List.mem_eraseDups, List.mem_filter]
+    constructor
+    · rintro ⟨id, ⟨hid, hk⟩, rfl⟩
+      refine ⟨hid, ?_, rfl⟩
+      intro b hb hbe
+      simp only [Bool.not_eq_true', List.any_eq_false, beq_iff_eq] at hk
+      exact hk b hb hbe
+    · rintro ⟨hid, hk, hp⟩
+      refine ⟨p.1, ⟨hid, ?_⟩, hp.symm⟩
+      simp only [Bool.not_eq_true', List.any_eq_false, beq_iff_eq]
+      exact hk
+  · rw [hf, List.map_map]
+    have : ((fun x : String × String => x.1) ∘ unknownEntry) = id := rfl
+    rw [this, List.map_id]
+    exact Lemmas.nodup_eraseDups _ _ (Nat.le_refl _)
+
+/-- The `failed` list of the response is the list above followed by exactly the selected peers whose
+    data is not available, in configuration order, each with "peer is down: <its last error>" -
+    whatever the request's offset, limit or sort. -/
+theorem failed_down_exact (m : EvalMode) (s : Schema) (ds : Dataset) (t : Table) (req : Request) :
+    (dataQuery m s ds t req).failed =
+      (selectBackends ds t req).failed ++
+        ((selectBackends ds t req).peers.filter (fun b => !backendAvailable b t)).map downEntry := by
+  unfold dataQuery
+  simp only
+  split <;> rfl
+
+/-- membership form: an entry is reported iff it is an unknown requested id or a configured,
+    selected, unavailable backend -/
+theorem mem_failed_iff (m : EvalMode) (s : Schema) (ds : Dataset) (t : Table) (req : Request)
+    (ht : Ordinary t) (p : String × String) :
+    p ∈ (dataQuery m s ds t req).failed ↔
+      (p.1 ∈ req.backends ∧ (∀ b ∈ ds.backends, b.id ≠ p.1) ∧ p = unknownEntry p.1) ∨
+      (∃ b ∈ ds.backends, selected req b = true ∧ backendAvailable b t = false ∧ p = downEntry b) := by
+  rw [failed_down_exact, List.mem_append, (failed_exact ds t req).1 p, peers_eq_filter ds t req ht]
+  simp only [List.mem_map, List.mem_filter, Bool.not_eq_true']
+  constructor
+  · rintro (h | ⟨b, ⟨⟨hb, hs⟩, ha⟩, rfl⟩)
+    · exact Or.inl h
+    · exact Or.inr ⟨b, hb, hs, ha, rfl⟩
+  · rintro (h | ⟨b, hb, hs, ha, rfl⟩)
+    · exact Or.inl h
+    · exact Or.inr ⟨b, ⟨⟨hb, hs⟩, ha⟩, rfl⟩
+
+/-! ## 7. the rows of the response -/
+
+/-- every row a backend contributes carries that backend (so `peer_key` / `peer_name` name the source) -/
+theorem hit_source (m : EvalMode) (cx : Ctx) (t : Table) (req : Request) (h : Hit)
+    (hh : h ∈ (gatherRows m cx t req).hits) : h.b = cx.b := by
+  have key : ∀ (l : List Row) (g : Row → Hit), (∀ r, (g r).b = cx.b) → ∀ x ∈ l.map g, x.b = cx.b := by
+    intro l g hg x hx
+    simp only [List.mem_map] at hx
+    obtain ⟨r, _, rfl⟩ := hx
+    exact hg r
+  unfold gatherRows at hh
+  simp only at hh
+  split at hh
+  · exact key _ _ (fun _ => rfl) h hh
+  · exact key _ _ (fun _ => rfl) h (List.mem_of_mem_take hh)
+
+/-- Without Sort, Limit and Offset the rows of the response are the concatenation, in configuration
+    order, of what each selected and available backend contributes: nothing is lost, nothing is
+    duplicated, nothing comes from a backend that was not selected or is down. -/
+theorem rows_partition (m : EvalMode) (s : Schema) (ds : Dataset) (t : Table) (req : Request)
+    (hs : req.sort = []) (hl : req.limit = none) (ho : req.offset = 0) :
+    (dataQuery m s ds t req).hits =
+      ((selectBackends ds t req).peers.filter (fun b => backendAvailable b t)).flatMap
+        (fun b => (gatherRows m { schema := s, ds := ds, b := b } t req).hits) := by
+  simp [dataQuery, hs, hl, ho, List.flatMap_map]
+
+/-- the same with the selection spelled out (per-backend tables) -/
+theorem rows_partition_filter (m : EvalMode) (s : Schema) (ds : Dataset) (t : Table) (req : Request)
+    (ht : Ordinary t) (hs : req.sort = []) (hl : req.limit = none) (ho : req.offset = 0) :
+    (dataQuery m s ds t req).hits =
+      (ds.backends.filter (fun b => selected req b && backendAvailable b t)).flatMap
+        (fun b => (gatherRows m { schema := s, ds := ds, b := b } t req).hits) := by
+  rw [rows_partition m s ds t req hs hl ho, peers_eq_filter ds t req ht, List.filter_filter]
+  congr 2
+  funext b
+  exact Bool.and_comm _ _
+
+/-- every row of such a response was contributed by a configured, selected, available backend, and is
+    attributed to it -/
+theorem hit_from_selected (m : EvalMode) (s : Schema) (ds : Dataset) (t : Table) (req : Request)
+    (ht : Ordinary t) (hs : req.sort = []) (hl : req.limit = none) (ho : req.offset = 0) (h : Hit)
+    (hh : h ∈ (dataQuery m s ds t req).hits) :
+    h.b ∈ ds.backends ∧ selected req h.b = true ∧ backendAvailable h.b t = true ∧
+      h ∈ (gatherRows m { schema := s, ds := ds, b := h.b } t req).hits := by
+  rw [rows_partition_filter m s ds t req ht hs hl ho] at hh
+  simp only [List.mem_flatMap, List.mem_filter, Bool.and_eq_true] at hh
+  obtain ⟨b, ⟨hb, hsel, hav⟩, hin⟩ := hh
+  have := hit_source m _ t req h hin
+  simp only at this
+  subst this
+  exact ⟨hb, hsel, hav, hin⟩
+
+/-! ## 8. backends do not influence each other -/
+
+/-- What backend `b` contributes depends on `b`, the schema, the request and the two authorisation
+    switches only: any other list of backends in the dataset gives the same result for `b`. -/
+theorem others_unaffected (m : EvalMode) (s : Schema) (b : Backend) (t : Table) (req : Request)
+    (ds ds' : Dataset) (h1 : ds.serviceAuthLoose = ds'.serviceAuthLoose)
+    (h2 : ds.groupAuthLoose = ds'.groupAuthLoose) :
+    gatherRows m { schema := s, ds := ds, b := b } t req = gatherRows m { schema := s, ds := ds', b := b } t req :=
+  Lemmas.gatherRows_congr (cx := { schema := s, ds := ds, b := b }) (cx' := { schema := s, ds := ds', b := b })
+    ⟨rfl, rfl, h1, h2⟩ m t req
+
+/-- hence removing other backends, or replacing them by copies that are down, leaves the rows
+    attributed to `b` unchanged -/
+theorem others_changed_unaffected (m : EvalMode) (s : Schema) (b : Backend) (t : Table) (req : Request)
+    (ds : Dataset) (f : List Backend → List Backend) :
+    gatherRows m { schema := s, ds := { ds with backends := f ds.backends }, b := b } t req =
+      gatherRows m { schema := s, ds := ds, b := b } t req :=
+  others_unaffected m s b t req _ _ rfl rfl
+
+/-! ## non-vacuity on the demo dataset (Lmd.Demo: backend "a" up with hosts h1, h2; backend "b" down) -/
+
+section Examples
+open Lmd.Demo
+
+example : Ordinary hostsT := by unfold Ordinary; decide
+example : ((ds false).backends.map (·.id)).Nodup := by decide
+/-- no header: both backends are asked; "b" is down and is reported, the rows come from "a" only -/
+example :
+    let res := dataQuery EvalMode.spec schema (ds false) hostsT { table := "hosts" }
+    ((selectBackends (ds false) hostsT { table := "hosts" }).peers.map (·.id) = ["a", "b"]) ∧
+    res.hits.map (fun h => (h.b.id, h.r.str hostsT "name")) = [("a", "h1"), ("a", "h2")] ∧
+    res.failed = [("b", "peer is down: connection refused")] := by decide
+/-- a header with an unknown id twice and the down backend twice: one entry each, no rows -/
+example :
+    let req : Request := { table := "hosts", backends := ["zzz", "b", "zzz", "b"] }
+    let res := dataQuery EvalMode.spec schema (ds false) hostsT req
+    ((selectBackends (ds false) hostsT req).peers.map (·.id) = ["b"]) ∧
+    res.hits.length = 0 ∧
+    res.failed = [("zzz", "bad request: backend zzz does not exist"), ("b", "peer is down: connection refused")] := by
+  decide
+/-- the hypotheses of `rows_partition` hold for these requests -/
+example : ({ table := "hosts" } : Request).sort = [] ∧ ({ table := "hosts" } : Request).limit = none ∧
+    ({ table := "hosts" } : Request).offset = 0 := by decide
+/-- `others_unaffected`: dropping the down backend from the dataset leaves "a"'s two rows as they are -/
+example : (gatherRows EvalMode.spec { schema := schema, ds := { ds false with backends := [backendA] }, b := backendA }
+    hostsT { table := "hosts" }).hits.length = 2 := by decide
+
+end Examples
+
 end Lmd.C04
